@@ -75,8 +75,14 @@ func startProbe() *probe {
 	}()
 	return p
 }
-func (p *probe) Max() time.Duration { return time.Duration(p.max.Load()) }
-func (p *probe) Stop()              { close(p.stop) }
+
+// Max gives the probe goroutine a moment to run first: right after a stall
+// (VM pause, clock jump) the caller may have woken up before it.
+func (p *probe) Max() time.Duration {
+	time.Sleep(300 * time.Millisecond)
+	return time.Duration(p.max.Load())
+}
+func (p *probe) Stop() { close(p.stop) }
 
 func sizeClass(n int) string {
 	switch {
@@ -459,6 +465,10 @@ func cleanCase(w *mon.Worker, idx int, o cleanOpts) {
 		return
 	}
 	if err != nil {
+		if pr.Max() > 500*time.Millisecond {
+			w.Inconclusive("handshake failed on a stalled machine")
+			return
+		}
 		ss.mu.Lock()
 		hs := ss.hsErr
 		ss.mu.Unlock()
@@ -504,6 +514,10 @@ func cleanCase(w *mon.Worker, idx int, o cleanOpts) {
 		return
 	}
 	if sendErr != nil {
+		if pr.Max() > 500*time.Millisecond {
+			w.Inconclusive("send failed on a stalled machine")
+			return
+		}
 		wit["error"] = sendErr.Error()
 		w.Violation("send-error@clean-stream", wit)
 		return
@@ -528,6 +542,10 @@ func cleanCase(w *mon.Worker, idx int, o cleanOpts) {
 	w.Count("proxy_segments", px.Segments[0].Load()+px.Segments[1].Load())
 
 	// client -> server, judged by the reference peer
+	if rerr != nil && rerr != io.EOF && len(recv) < len(c2s) && strings.HasPrefix(frameErrClass(rerr), "truncated") && slow() {
+		w.Inconclusive("client stream ended early in a run slower than tongo's 10 s silence timer allows")
+		return
+	}
 	if rerr != nil && rerr != io.EOF && len(recv) < len(c2s) {
 		wit["reference_error"], wit["stream_span"], wit["frames_before"] = rerr.Error(), []int64{rspan.Start, rspan.End}, len(recv)
 		w.Violation("client-frame-rejected-by-reference/"+frameErrClass(rerr), wit)
@@ -799,6 +817,10 @@ func faultyServerFrames(w *mon.Worker, idx int, rng *mon.Rng, id *adnl.Identity)
 		w.Eval(fmt.Sprintf("s2c-fault/%s/%d/%d", class, t, f.Offset-spans[target].Start))
 		w.Seen("fault_classes", "s2c:"+class)
 		if !px.Applied.Load() || t != 0 {
+			if pr.Max() > 500*time.Millisecond {
+				w.Inconclusive("handshake failed on a stalled machine")
+				return
+			}
 			wit["client_error"], wit["touched_frame"] = dr.err.Error(), t
 			w.Violation("handshake-failed@untouched-confirmation", wit)
 			return
